@@ -478,6 +478,8 @@ pub fn check(prop: &str, tier: &str) -> i32 {
         batches.push(Batch { profile: "C08big".into(), lo: 0, hi: n });
     }
     if prop == "C07" {
+        let n = crate::bigshape::C07BIG_POINTS.len() as u64 * if quick { 1 } else { 2 };
+        batches.push(Batch { profile: "C07big".into(), lo: 0, hi: n });
         batches.push(Batch { profile: "C07sweep".into(), lo: 0, hi: env_u64("VERIF_SWEEP_HISTORIES", if quick { 160 } else { 6000 }) });
     }
     if prop == "C16" || prop == "C05" {
@@ -492,9 +494,11 @@ pub fn check(prop: &str, tier: &str) -> i32 {
     let mut dead: Vec<(String, u64, String)> = Vec::new();
     let mut batch_info = Vec::new();
     for bt in &batches {
-        let bw = if bt.profile == "C08big" { nw.min(bt.hi - bt.lo).max(1) } else { nw };
+        let bw = if bt.profile == "C08big" || bt.profile == "C07big" { nw.min(bt.hi - bt.lo).max(1) } else { nw };
         // big shapes are keyed by the kind number itself, not by VERIF_SEED
-        let bbase = if bt.profile == "C08big" { env_u64("VERIF_SEED", 1).wrapping_sub(1).wrapping_mul(crate::bigshape::KINDS) } else { base };
+        let bbase = if bt.profile == "C07big" {
+            0
+        } else if bt.profile == "C08big" { env_u64("VERIF_SEED", 1).wrapping_sub(1).wrapping_mul(crate::bigshape::KINDS) } else { base };
         let outs = run_workers(prop, &bt.profile, bbase, bt.lo, bt.hi, bw, 0, budget_s);
         let mut bruns = 0;
         for o in outs {
@@ -611,7 +615,7 @@ pub fn check(prop: &str, tier: &str) -> i32 {
                 gen_scenario(v.seed, &pf)
             };
             let sb = Sandbox::new("min");
-            let small = if profile == "C08big" {
+            let small = if profile == "C08big" || profile == "C07big" {
                 sc
             } else {
                 let t = minimise::Target { prop: prop.to_string(), code: code.clone() };
